@@ -1,3 +1,5 @@
+import CuriesVerif.Model.Csv
+import CuriesVerif.Model.Files
 import CuriesVerif.Check
 import CuriesVerif.Spec.W3C
 import CuriesVerif.Model.Reference
@@ -47,9 +49,13 @@ def handle (j : Json) : Except String Json := do
         | .ok out => pure (Json.mkObj [("rows", .arr (out.map fun r => Json.arr (r.map Codec.encOptStr).toArray).toArray)])
         | .error e => pure (Json.mkObj [("e", .str e.name)])
       else
-        let (res, disk) := Bulk.fileHelper f col (Codec.boolD j "header" true) rows
+        -- through the text of the file: what csv.writer puts on disk, the operation on that text, the text afterwards
+        let sep ← (Codec.fieldD j "sep" (.num 9)).getNat?
+        let text0 := Csv.csvWrite sep rows
+        let (res, text1) := Files.fileHelperText f col (Codec.boolD j "header" true) sep text0
         pure (Json.mkObj [("result", match res with | .ok _ => Json.null | .error e => Json.str e.name),
-          ("rows", .arr (disk.map Codec.encStrs).toArray)])
+          ("rows", .arr ((Csv.csvRead sep text1).map Codec.encStrs).toArray),
+          ("text0", Codec.encStr text0), ("text1", Codec.encStr text1)])
   | "resolve" =>
     -- {"k":"resolve","records":…,"delim":…,"paths":[str,…]}  (paths without the leading "/")
     let recs ← Codec.records (← j.getObjVal? "records")
@@ -122,6 +128,40 @@ def handle (j : Json) : Except String Json := do
       ("parse", .arr (parses.map fun r => match r with
         | .ok x => encRef x
         | .error e => Json.mkObj [("e", .str e.name)]).toArray)])
+  | "tsv" =>
+    -- {"k":"tsv","header":[h1,h2],"records":[…]} → the text write_tsv writes and its two-column reading
+    let recs ← Codec.records (← j.getObjVal? "records")
+    let hdr ← Codec.strs (← j.getObjVal? "header")
+    let text := Files.tsvText (hdr.getD 0 []) (hdr.getD 1 []) recs
+    pure (Json.mkObj [("text", Codec.encStr text),
+      ("pairs", match Files.tsvPairs text with
+        | some ps => .arr (ps.map fun pu => Json.arr #[Codec.encStr pu.1, Codec.encStr pu.2]).toArray
+        | none => Json.null)])
+  | "triples" =>
+    -- {"k":"triples","header":[…],"triples":[[[p,i],[p,i],[p,i]],…]} → text written, triples read back
+    let hdr ← Codec.strs (← j.getObjVal? "header")
+    let ts ← (← (← j.getObjVal? "triples").getArr?).toList.mapM fun t => do
+      let refs ← (← t.getArr?).toList.mapM fun r => do
+        let pi ← Codec.strs r
+        pure ({ cls := .reference, pfx := pi.getD 0 [], ident := pi.getD 1 [] } : Ref)
+      match refs with
+      | [a, b, c] => pure (a, b, c)
+      | _ => throw "a triple has three references"
+    let text := Files.triplesText hdr ts
+    let encRef (r : Ref) : Json := Json.arr #[Codec.encStr r.pfx, Codec.encStr r.ident]
+    pure (Json.mkObj [("text", Codec.encStr text),
+      ("read", match Files.readTriples .reference text with
+        | .ok l => .arr (l.map fun t => Json.arr #[encRef t.1, encRef t.2.1, encRef t.2.2]).toArray
+        | .error e => Json.mkObj [("e", .str e.name)])])
+  | "csv" =>
+    -- {"k":"csv","d":code point,"texts":[str,…],"tables":[[[cell,…],…],…]} → parsed rows of each text, text of each table
+    let d ← (← j.getObjVal? "d").getNat?
+    let texts ← Codec.strs (Codec.fieldD j "texts" (.arr #[]))
+    let tables ← (← (Codec.fieldD j "tables" (.arr #[])).getArr?).toList.mapM fun t => do
+      (← t.getArr?).toList.mapM Codec.strs
+    pure (Json.mkObj [
+      ("read", .arr (texts.map fun t => Json.arr ((Csv.csvRead d t).map Codec.encStrs).toArray).toArray),
+      ("written", .arr (tables.map fun t => Codec.encStr (Csv.csvWrite d t)).toArray)])
   | "w3c" =>
     -- {"k":"w3c","space":[code points],"strs":[...],"obs":[[prefixBool,curieBool],…]}
     let sp ← (← (Codec.fieldD j "space" (.arr #[])).getArr?).toList.mapM (·.getNat?)
